@@ -30,9 +30,9 @@ import (
 )
 
 var (
-	nImages, nErrors, nRecovered, nMut, nInfoNonPrefix atomic.Int64
-	sampled                                            atomic.Int64
-	byFault                                            sync.Map
+	nImages, nErrors, nRecovered, nMut, nInfoNonPrefix, nBigEntries atomic.Int64
+	sampled                                                         atomic.Int64
+	byFault                                                         sync.Map
 )
 
 type entryPos struct {
@@ -167,6 +167,16 @@ func runCase(r *ev.Run, idx int) {
 		n = 150 + rng.Intn(150) // a long unsynced burst: damage far from the tail is still damage
 	}
 	for i := 0; i < n; i++ {
+		if idx%8 == 3 && (i == n/3 || i == 2*n/3) {
+			// an entry far larger than any internal block or buffer size (random content throughout, so
+			// that damage anywhere in it changes it)
+			v := make([]byte, []int{65537, 70000, 131072 + 100, 200000, 3*65536 + 4095, 1<<20 + 17}[rng.Intn(6)])
+			rng.Read(v)
+			nBigEntries.Add(1)
+			if !apply(kvlab.Op{Kind: kvlab.OpPut, Key: g.Keys[rng.Intn(len(g.Keys))], Val: v}) {
+				return
+			}
+		}
 		if !apply(g.Next()) {
 			return
 		}
@@ -227,7 +237,7 @@ func runCase(r *ev.Run, idx int) {
 		return entryPos{}
 	}
 	// every offset of the last segment; for a segment made large by bulk hand-overs: every entry
-	// boundary and its neighbours plus 1500 PRNG offsets
+	// boundary and its neighbours plus 1500 (300 when the segment exceeds 64 KiB) PRNG offsets
 	offsets := make([]int, 0, len(pristine))
 	if len(pristine) <= 4096 {
 		for t := 0; t < len(pristine); t++ {
@@ -242,7 +252,11 @@ func runCase(r *ev.Run, idx int) {
 				}
 			}
 		}
-		for k := 0; k < 1500; k++ {
+		np := 1500
+		if len(pristine) > 1<<16 {
+			np = 300 // a segment holding very large entries: every image costs a replay of them
+		}
+		for k := 0; k < np; k++ {
 			pick[rng.Intn(len(pristine))] = true
 		}
 		for t := range pick {
@@ -273,7 +287,65 @@ func runCase(r *ev.Run, idx int) {
 			}
 			faults = append(faults, fault{kind: "zerotail", desc: fmt.Sprintf("bytes %d..%d zeroed", t, len(pristine)), cls: cls, img: img})
 		}
-		for off := last.pos; off < last.end; off++ { // every byte of the last entry
+		flipOffs := make([]int, 0, last.end-last.pos)
+		if last.end-last.pos <= 4096 {
+			for off := last.pos; off < last.end; off++ { // every byte of the last entry
+				flipOffs = append(flipOffs, off)
+			}
+		} else { // a very large last entry: its first and last 64 bytes and 512 PRNG positions
+			for k := 0; k < 64; k++ {
+				flipOffs = append(flipOffs, last.pos+k, last.end-1-k)
+			}
+			for k := 0; k < 512; k++ {
+				flipOffs = append(flipOffs, last.pos+rng.Intn(last.end-last.pos))
+			}
+		}
+		// damage inside very large entries (of the last segment): sector / page sized ranges near the start,
+		// near the end and at PRNG positions turned into zeros or garbage, everything else intact
+		nbig := 0
+		for _, e := range entries {
+			if e.end-e.pos <= 8192 || nbig >= 3 {
+				continue
+			}
+			nbig++
+			var offs []int
+			for _, d := range []int{64, 4096, 65536 - 1, 65536 + 1} {
+				if e.pos+d < e.end-8 {
+					offs = append(offs, e.pos+d)
+				}
+				if e.end-8-d > e.pos+16 {
+					offs = append(offs, e.end-8-d)
+				}
+			}
+			for k := 0; k < 24; k++ {
+				offs = append(offs, e.pos+16+rng.Intn(e.end-e.pos-32))
+			}
+			for k, off := range offs {
+				l := []int{512, 4096, 1, 37}[k%4]
+				if off+l > e.end-8 {
+					l = e.end - 8 - off
+				}
+				if l <= 0 {
+					continue
+				}
+				img := append([]byte{}, pristine...)
+				kind := "big-entry-range-garbage"
+				if k%2 == 0 {
+					kind = "big-entry-range-zero"
+					for x := off; x < off+l; x++ {
+						img[x] = 0
+					}
+				} else {
+					rng.Read(img[off : off+l])
+				}
+				where := "last"
+				if e.end != last.end {
+					where = "earlier"
+				}
+				faults = append(faults, fault{kind: kind, desc: fmt.Sprintf("%s of bytes [%d,%d) inside the %d-byte %s entry [%d,%d)", kind, off, off+l, e.end-e.pos, where, e.pos, e.end), cls: where + "-" + posClass(e, off), img: img})
+			}
+		}
+		for _, off := range flipOffs {
 			for _, mask := range []byte{0x01, 0x80, 0xff, byte(1 + rng.Intn(255))} {
 				img := append([]byte{}, pristine...)
 				img[off] ^= mask
@@ -552,7 +624,7 @@ func openImage(cfg aof.Config) (d *aof.DiskKV, err error, pan string) {
 
 func main() {
 	r := ev.Start("C22", "fault_enumeration")
-	r.SetRule("a history = 12-32 (52 thorough; every 8th: 150-300) PRNG mutations on the real AOF store (every 6th behind >= 2 MB of large values so the log has several segments, every 4th with a clean restart in the middle), stopped cleanly; fault images of the last segment file: truncation to every offset; the tail zeroed from every offset; every byte of the last entry xor {0x01,0x80,0xff,random}; seeded: 288 contiguous byte ranges inside ONE entry (last, or an earlier one with the later entries intact) replaced by PRNG garbage or zeros, 96 single-byte xors of earlier entries; crafted: 3 entries whose payload+checksum are masked as an unknown field, every entry whose length prefix is enlarged to swallow its successor, 3 entries that carry their data and checksum fields twice (the second pair taken from another entry); and up to 2 'rejected append left at the tail' images (an earlier PrefixAppend whose child still exists repeated at the end), opened, given empty-valued puts and a clean stop, and opened again. A case = one image reopened with aof.New; distinct+non-trivial by (fault kind, where it hits: entry boundary / length prefix / header / payload / checksum, last or earlier entry, single/multi segment, outcome: error / final / intermediate / empty state). 32 garbage tails per history are reopened too but only counted (outside the judged fault model)")
+	r.SetRule("a history = 12-32 (52 thorough; every 8th: 150-300) PRNG mutations on the real AOF store (every 6th behind >= 2 MB of large values so the log has several segments, every 4th with a clean restart in the middle, every 8th with two puts of 64 KiB+1 .. 1 MiB+17 bytes of random content: sector / page sized ranges inside those very large entries zeroed or turned into garbage), stopped cleanly; fault images of the last segment file: truncation to every offset; the tail zeroed from every offset; every byte of the last entry xor {0x01,0x80,0xff,random}; seeded: 288 contiguous byte ranges inside ONE entry (last, or an earlier one with the later entries intact) replaced by PRNG garbage or zeros, 96 single-byte xors of earlier entries; crafted: 3 entries whose payload+checksum are masked as an unknown field, every entry whose length prefix is enlarged to swallow its successor, 3 entries that carry their data and checksum fields twice (the second pair taken from another entry); and up to 2 'rejected append left at the tail' images (an earlier PrefixAppend whose child still exists repeated at the end), opened, given empty-valued puts and a clean stop, and opened again. A case = one image reopened with aof.New; distinct+non-trivial by (fault kind, where it hits: entry boundary / length prefix / header / payload / checksum, last or earlier entry, single/multi segment, outcome: error / final / intermediate / empty state). 32 garbage tails per history are reopened too but only counted (outside the judged fault model)")
 	r.Assume("histories are sampled; per history the truncation offsets and last-entry byte positions are enumerated completely, multi-byte and earlier-entry corruptions are seeded samples")
 	r.Assume("a fault is modelled as a change of the bytes of the last segment file only (older segments were synced when the segment was closed)")
 	r.Assume("the harness' parser of the tidwall/wal binary framing is used only to classify fault positions, never to decide")
@@ -580,6 +652,7 @@ func main() {
 	r.Count("histories", int64(n))
 	r.Count("mutations_issued", nMut.Load())
 	r.Count("fault_images_reopened", nImages.Load())
+	r.Count("entries_larger_than_64KiB_written", nBigEntries.Load())
 	r.Count("reopen_failed_with_error", nErrors.Load())
 	r.Count("reopen_succeeded_state_checked", nRecovered.Load())
 	r.Count("info_unjudged_garbage_tail_images_not_error_or_prefix", nInfoNonPrefix.Load())
